@@ -228,6 +228,7 @@ type scenarioC41 struct {
 	ns           int  // number of (symbolic) client suites
 	curves       bool // client sends supported curves + point formats
 	alpn         int  // 0 none, 1 [h2], 2 [sym], 3 [h2,sym], 4 [sym,sym], 5 [h2,http/1.1], 6 [http/1.1,h2]
+	clone        bool // the live configuration is Config.Clone() of the configured one (ticket key rotation)
 }
 
 func runHelloC41(sc scenarioC41) {
@@ -254,6 +255,12 @@ func runHelloC41(sc scenarioC41) {
 	if sc.rule {
 		grade = sc.grade
 		cfg.ServerRule = fixedRuleC41{&Rule{Grade: grade, Chacha20: sc.chacha, NextProtos: fixedProtosC41(sc.serverProtos)}}
+	}
+	configured := cfg // the oracle below speaks about the configuration as the operator wrote it
+	if sc.clone {
+		// bfe_server's UpdateSessionTicketKey installs cfg.Clone() (with a new ticket key) as the live
+		// configuration of the listener: the clone must negotiate exactly like the original.
+		cfg = cfg.Clone()
 	}
 
 	ch := &clientHelloMsg{}
@@ -293,7 +300,7 @@ func runHelloC41(sc scenarioC41) {
 
 	scsv := hasU16C41(clientSuites, TLS_FALLBACK_SCSV)
 	// known-finding classes
-	vrt.Known("C41-fallback-scsv-default-maxversion", scsv && cfg.MaxVersion == 0 && clientVers < hi)
+	vrt.Known("C41-fallback-scsv-default-maxversion", scsv && configured.MaxVersion == 0 && clientVers < hi)
 	vrt.Known("C41-h2-rewritten-to-unoffered-http11", hasStrC41(clientProtos, "h2") && !hasStrC41(clientProtos, "http/1.1"))
 
 	isResume, err := hs.readClientHello()
@@ -315,7 +322,7 @@ func runHelloC41(sc scenarioC41) {
 	if hs.suite != nil {
 		id := hs.suite.id
 		vrt.Assert(hasU16C41(clientSuites, id), "C41/hello-suite-offered-by-client")
-		vrt.Assert(hasU16C41(cfg.cipherSuites(), id), "C41/hello-suite-enabled-by-server")
+		vrt.Assert(hasU16C41(configured.cipherSuites(), id), "C41/hello-suite-enabled-by-server")
 		rc4, tls12, _, ecdsa, isChacha, ok := suiteFlagsC41(id)
 		vrt.Assert(ok, "C41/hello-suite-implemented")
 		vrt.Assert(!tls12 || c.vers >= VersionTLS12, "C41/hello-tls12-suite-needs-tls12")
@@ -440,4 +447,84 @@ func VerifC41_hello_suite_default() {
 	sc.curves = flagC41()
 	sc.ns = vrt.Range("nsuites", 1, vrt.Param("NS", 1))
 	runHelloC41(sc)
+}
+
+// ---------------------------------------------------------------------------------------------
+// the live configuration is a Clone() of the configured one
+
+// VerifC41_hello_clone: every Min/Max pair, server suite set 0 in server order, NextProtos
+// {h2,http/1.1}, no rule or grade B; the Config handed to the connection is cfg.Clone() (what the
+// session ticket key rotation installs). One symbolic suite, symbolic client version, ALPN none or
+// [http/1.1,h2]. Same oracle as every other hello harness, stated against the ORIGINAL configuration.
+func VerifC41_hello_clone() {
+	sc := scenarioC41{suites: serverSuiteSetsC41[0], curves: true, clone: true, prefer: 1}
+	sc.min = versionsC41[vrt.Choose("min", len(versionsC41))]
+	sc.max = versionsC41[vrt.Choose("max", len(versionsC41))]
+	sc.serverProtos = serverProtoSetsC41[0]
+	if flagC41() {
+		sc.rule, sc.grade = true, GradeB
+	}
+	if flagC41() {
+		sc.alpn = 6
+	}
+	sc.ns = 1
+	runHelloC41(sc)
+}
+
+// ---------------------------------------------------------------------------------------------
+// negotiated parameters of a RESUMED handshake
+
+// VerifC41_hello_resume_params: the (fake) session cache holds a session {vers, suite: 16 bits
+// symbolic each}; the client presents a session id, a symbolic version and two symbolic suites; the
+// server enables exactly {RSA_AES128_CBC_SHA, RSA_AES256_CBC_SHA} and Min/Max from {0, TLS1.0, TLS1.2}.
+// A completed readClientHello - resumed or not - uses a version inside the configured range and not
+// above the client's, and a suite that the client offered and the server configuration enables.
+func VerifC41_hello_resume_params() {
+	cfg := &Config{Rand: zeroRandC41{}, SessionTicketsDisabled: true}
+	cfg.Certificates = make([]Certificate, 1)
+	vs := []uint16{0, VersionTLS10, VersionTLS12}
+	cfg.MinVersion = vs[vrt.Choose("min", len(vs))]
+	cfg.MaxVersion = vs[vrt.Choose("max", len(vs))]
+	lo, hi := effMinC41(cfg.MinVersion), effMaxC41(cfg.MaxVersion)
+	if lo > hi {
+		return
+	}
+	serverSuites := []uint16{TLS_RSA_WITH_AES_128_CBC_SHA, TLS_RSA_WITH_AES_256_CBC_SHA}
+	cfg.CipherSuites = serverSuites
+	st := &sessionState{vers: vrt.U16("stVers"), cipherSuite: vrt.U16("stSuite"), masterSecret: []byte{1, 2}}
+	cfg.ServerSessionCache = &cacheC41{entry: st.marshal()}
+
+	ch := &clientHelloMsg{}
+	ch.vers = vrt.U16("clientVers")
+	ch.random = make([]byte, 32)
+	ch.sessionId = []byte{7}
+	ch.cipherSuites = []uint16{vrt.U16("suite"), vrt.U16("suite")}
+	ch.compressionMethods = []uint8{compressionNone}
+	clientVers := ch.vers
+	clientSuites := append([]uint16(nil), ch.cipherSuites...)
+	// the TLS_FALLBACK_SCSV classes are the business of VerifC41_hello_resume_scsv
+	vrt.Assume(!hasU16C41(clientSuites, TLS_FALLBACK_SCSV))
+
+	c := &Conn{conn: &fakeConnC41{}, config: cfg}
+	c.hand.Write(ch.marshal())
+	hs := &serverHandshakeState{c: c}
+
+	isResume, err := hs.readClientHello()
+	if err != nil {
+		return
+	}
+	if isResume {
+		vrt.Cover("C41/resume-params-resumed")
+	} else {
+		vrt.Cover("C41/resume-params-full")
+	}
+	vrt.Assert(c.vers >= lo, "C41/resume-version-ge-min")
+	vrt.Assert(c.vers <= hi, "C41/resume-version-le-max")
+	vrt.Assert(c.vers <= clientVers, "C41/resume-version-le-client")
+	vrt.Assert(hs.hello.vers == c.vers, "C41/resume-version-announced")
+	vrt.Assert(hs.suite != nil, "C41/resume-suite-chosen")
+	if hs.suite != nil {
+		vrt.Assert(hasU16C41(clientSuites, hs.suite.id), "C41/resume-suite-offered-by-client")
+		vrt.Assert(hasU16C41(serverSuites, hs.suite.id), "C41/resume-suite-enabled-by-server")
+	}
 }
